@@ -246,18 +246,22 @@ class Cascade:
                 except Exception as e:
                     if not self.silent:
                         print(f"  ⚠️ Gate error at {stage.name}: {e}")
+                    # A gate that cannot be evaluated is a closed gate: the
+                    # stage never runs, whatever the failure mode
+                    stage_result = StageResult(
+                        stage_name=stage.name,
+                        status=StageStatus.FAILED,
+                        input_signal=current_signal,
+                        output_signal=None,
+                        error=str(e),
+                        processing_time_ms=(time.time() - stage_start) * 1000
+                    )
+                    stage_results.append(stage_result)
+                    blocked_at = stage.name
+
                     if self.halt_on_failure:
-                        stage_result = StageResult(
-                            stage_name=stage.name,
-                            status=StageStatus.FAILED,
-                            input_signal=current_signal,
-                            output_signal=None,
-                            error=str(e),
-                            processing_time_ms=(time.time() - stage_start) * 1000
-                        )
-                        stage_results.append(stage_result)
-                        blocked_at = stage.name
                         break
+                    continue
 
             # Process stage
             try:
